@@ -251,7 +251,8 @@ fn p(name: &str, files: &[(&str, &str)], expected: &str) -> Project {
     Project { name: name.into(), files: files.iter().map(|(a, b)| (a.to_string(), b.to_string())).collect(), expected_stdout: Some(expected.to_string()) }
 }
 
-/// hand-written projects over the DAG shapes {chain, diamond, fan-in, fan-out} with cross-package
+/// hand-written projects over the DAG shapes (incl. packages of several files whose enums are matched with bare
+/// variant patterns from another file) {chain, diamond, fan-in, fan-out} with cross-package
 /// generics, enums, structs, traits and impls in either the trait's or the type's package
 pub fn generated_projects() -> Vec<Project> {
     vec![
@@ -301,6 +302,16 @@ pub fn generated_projects() -> Vec<Project> {
                 ("A/two.gom", "package A\n\nfn g() -> int32 { f() + 10 }\n"),
             ],
             "112\n",
+        ),
+        p(
+            "enum-declared-in-another-file",
+            &[
+                ("main.gom", "package Main\nimport A\n\nfn code(c: Color) -> int32 {\n    match c { Red => 1, Green => 2, Rgb(k) => k, Blue => 3 }\n}\n\nfn main() {\n    string_println(int32_to_string(code(Green)) + int32_to_string(code(Color::Blue)) + int32_to_string(code(Rgb(7))) + int32_to_string(code(Red)));\n    string_println(int32_to_string(A::rank(A::mk(2))))\n}\n"),
+                ("types.gom", "package Main\n\nenum Color { Red, Green, Blue, Rgb(int32) }\n"),
+                ("A/shapes.gom", "package A\n\nenum Shape { Dot, Line, Poly(int32) }\n\nfn mk(n: int32) -> Shape { if n < 1 { Dot } else { if n < 2 { Line } else { Poly(n) } } }\n"),
+                ("A/rank.gom", "package A\n\nfn rank(s: Shape) -> int32 {\n    match s { Dot => 10, Line => 20, Poly(n) => 30 + n }\n}\n"),
+            ],
+            "2371\n32\n",
         ),
         p(
             "closure-across-packages",
